@@ -49,6 +49,10 @@ func (p Precompile) DepositOrWithdraw(
 		return nil, err
 	}
 
+	// the keeper calls below either all take effect or none: the precompile reports a failure
+	// of any of them as `false`, which must not leave a partial state change behind.
+	ctx, writeFunc := ctx.CacheContext()
+
 	// call assets keeper to perform the deposit or withdraw action
 	err = p.assetsKeeper.PerformDepositOrWithdraw(ctx, depositWithdrawParams)
 	if err != nil {
@@ -79,6 +83,7 @@ func (p Precompile) DepositOrWithdraw(
 	if err != nil {
 		return nil, err
 	}
+	writeFunc()
 	return method.Outputs.Pack(true, info.TotalDepositAmount.BigInt())
 }
 
